@@ -104,3 +104,87 @@ def ledger_check(ctx, pid, cfg, selftest_mutator, what):
         replica_paths=t["paths"], selftest_corrupt_rejected=True, selftest_located=rej2[0]["why"],
         samples=[json.loads(x) for x in lines[3:5]])
     return lines, sums
+
+
+def governance_check(ctx, lines):
+    """TraceGovernance.tla on the recorded scenarios.  G5 (deposit pool = deposits of the active proposals) is a clause of C05 and
+    is reported as such; G1-G4 (life cycle, closing epoch, votes, stake-weighted tally) describe behaviour outside the listed
+    properties: a deviation is printed as SPEC-DEVIATION and kept in the evidence notes, it does not change the exit code."""
+    rej, nv, nev = validate(ctx, lines, "TraceGovernance", "tracegovernance.cfg")
+    dev = 0
+    for seg in rej:
+        if "G5:" in seg["why"]:
+            vlib.report(ctx, "C05: %s at %s" % (seg["why"], seg["failing_event"][:400]),
+                        {"seed_event": seg["events"][0], "failing_index": seg["failing_index_in_segment"], "events_tail": seg["events"][-4:]},
+                        {"kind": "governance-deposits"})
+        else:
+            dev += 1
+            line = "SPEC-DEVIATION governance (outside the listed properties) %s: %s at %s" % (
+                json.dumps(seg["events"][0])[:160], seg["why"], seg["failing_event"][:300])
+            if dev <= 3:
+                print(line)
+                ctx.notes.append(line[:600])
+    # what the scenarios exercised (vacuity guard) and self-tests (each forged record must be rejected at its clause)
+    st = {"proposals": 0, "passed": 0, "failed": 0, "rejected_with_yes": 0, "votes_accepted": 0, "votes_by_non_entities": 0, "closings_with_override": 0}
+    last = None
+    closing_block = None      # (segment lines up to and including an end event in which a proposal with votes closes)
+    seg = []
+    for ln in lines:
+        if '"ev":"begin_chain"' in ln:
+            seg, last = [], None
+        seg.append(ln)
+        if '"ev":"tx"' in ln and ('"kind":"vote"' in ln):
+            e = json.loads(ln)
+            if e["code"] == 0:
+                st["votes_accepted"] += 1
+                if e["spec"]["signer"].startswith("U"):
+                    st["votes_by_non_entities"] += 1
+        elif '"ev":"end"' in ln:
+            e = json.loads(ln)
+            ps = e["gov"]["proposals"]
+            prev = {p["id"]: p for p in (last or [])}
+            for p in ps:
+                if p["state"] != "active" and prev.get(p["id"], {"state": "active"})["state"] == "active":
+                    st["proposals"] += 1
+                    st["passed"] += p["state"] == "passed"
+                    st["failed"] += p["state"] == "failed"
+                    st["rejected_with_yes"] += p["state"] == "rejected" and p["results"]["yes"] > 0
+                    voters = {v[0] for v in p["votes"]}
+                    vals = set(e["gov"]["vals"])
+                    if any(d[0] in voters and d[0] != d[1] and d[1] in vals for d in e["state"]["del"]):
+                        st["closings_with_override"] += 1
+                    if closing_block is None and p["votes"] and p["results"]["yes"] > 0:
+                        closing_block = (list(seg), p["id"])
+            last = ps
+    ctx.log("governance: %d valid, %d rejected (%d outside the listed properties); %s" % (nv, len(rej), dev, st))
+    if st["proposals"] < 3 or st["votes_accepted"] < 5:
+        ctx.deferred_infra.append("vacuous governance run: %s" % st)
+    tests = {}
+    if closing_block:
+        seg0, pid_ = closing_block
+
+        def forge(fn):
+            evs = [json.loads(x) for x in seg0]
+            fn(evs[-1])
+            r, _, _ = validate(ctx, [json.dumps(e) + "\n" for e in evs], "TraceGovernance", "tracegovernance.cfg")
+            return r[0]["why"] if r else None
+
+        def f_res(e):
+            [p for p in e["gov"]["proposals"] if p["id"] == pid_][0]["results"]["yes"] += 1
+
+        def f_state(e):
+            p = [p for p in e["gov"]["proposals"] if p["id"] == pid_][0]
+            p["state"] = "passed" if p["state"] == "rejected" else "rejected"
+
+        def f_dep(e):
+            e["state"]["govdep"] += 100
+
+        def f_vote(e):
+            [p for p in e["gov"]["proposals"] if p["id"] == pid_][0]["votes"].append(["ZZ", "yes"])
+
+        for name, fn, want in (("results", f_res, "G4"), ("outcome", f_state, "G4"), ("deposit_pool", f_dep, "G5"), ("phantom_vote", f_vote, "G3")):
+            why = forge(fn)
+            if not why or (want + ":") not in why:
+                raise vlib.Infra("governance self-test %s: forged record %s" % (name, "accepted" if not why else "rejected by " + why))
+            tests[name] = why[-110:]
+    ctx.coverage.update(governance=st, governance_traces_valid=nv, governance_deviations=dev, governance_selftests=tests)
